@@ -146,7 +146,7 @@ class Ctx:
         from lib.replay import write_replay
 
         write_replay(path, self.prop, os.path.join(VERIF_ROOT, harness), call,
-                     note=f"harness {harness}; env {env or {}}")
+                     note=f"harness {harness}", env=env)
         e = dict(os.environ)
         e.update({k: str(v) for k, v in (env or {}).items()})
         e["PYTHONPATH"] = VERIF_ROOT
@@ -325,7 +325,12 @@ class Ctx:
                 print(f"  {v['what']}")
             return EXIT_VIOLATION
         if self.harness_errors:
+            shown = set()
             for e in self.harness_errors:
+                key = e.split(":", 1)[-1][-200:]
+                if key in shown:
+                    continue
+                shown.add(key)
                 print(f"HARNESS-ERROR {self.prop}: {e}", file=sys.stderr)
             return EXIT_HARNESS
         if not conclusive:
